@@ -15,32 +15,34 @@
      per question (k_silent): once the search for a question is over, no query for it leaves
        in any later iteration (only a start call can bring it back), for every continuation.
 
-   FULL STATEMENT (false of the code: C13_full_statement_refuted, known finding
-   C13-timeout-late-rerun):
-       forall t0 h, wf_hist t0 h = true -> chk_C13 t0 h (model_run t0 h) = true.
-   Proved for every well-formed history in which the hazard flag never rises, in particular
-   for every history in which the daemon is never woken later than it asked. *)
+   FULL STATEMENT, proved (C13_monitor_holds):
+       forall t0 h, wf_hist t0 h = true -> chk_C13 t0 h (model_run t0 h) = true
+   - all API call sequences, all iteration times (early, on time, late).  It was refuted on
+   the tree before commit a4675d4 (SearchStarted after SearchStopped and queries for ever when
+   a resolver deadline was noticed late); the former witness is kept below and now passes. *)
 From Coq Require Import List NArith Bool.
 From Mdns Require Import Bytes Sched SchedSpec SchedParamsProofs SchedProofs SchedSpecProofs.
 Import ListNotations.
 Open Scope N_scope.
 
-(* channel_protocol + stopped_means_silent, as the monitor states them *)
+(* channel_protocol + stopped_means_silent, as the monitor states them, for ALL well-formed
+   histories *)
 Theorem C13_monitor_holds :
-  forall t0 h, wf_hist t0 h = true -> hazard_free t0 h = true -> chk_C13 t0 h (model_run t0 h) = true.
+  forall t0 h, wf_hist t0 h = true -> chk_C13 t0 h (model_run t0 h) = true.
 Proof. exact chk_C13_model. Qed.
 
-Theorem C13_timely_histories :
-  forall t0 h, wf_hist t0 h = true -> timely t0 h = true -> chk_C13 t0 h (model_run t0 h) = true.
-Proof. exact chk_C13_timely. Qed.
-
-(* being woken on time is enough to stay clear of the hazard *)
-Theorem timely_is_safe :
-  forall t0 h, in_range h -> timely t0 h = true -> hazard_free t0 h = true.
-Proof. exact timely_is_hazard_free. Qed.
+(* in every reachable live state every queued retransmission belongs to a search that is still
+   current: same channel, and its time lies before the search's deadline.  So a search that was
+   stopped, timed out or replaced has no retransmission left between iterations. *)
+Theorem no_retransmission_without_search :
+  forall t0 h, wf_hist t0 h = true -> st_alive (final (init t0) h) = true ->
+  forall r, In r (st_retrans (final (init t0) h)) ->
+  exists o, lookup (rkey r) (st_owners (final (init t0) h)) = Some o /\ ow_ch o = r_ch r
+            /\ (forall d, ow_deadline o = Some d -> r_time r < d).
+Proof. exact no_chain_without_search. Qed.
 
 (* stopped_means_silent on states: after the stop command no retransmission and no listener
-   for that search remain (InvH: the state was reached without hazard) ... *)
+   for that search remain (InvH holds in every reachable state, see above) ... *)
 Theorem stopped_means_silent_state :
   forall s host nm, InvH s ->
   let s' := fst (fst (exec_stop host nm s)) in
@@ -53,12 +55,14 @@ Theorem stop_host_any_case :
   forall h1 h2, lower h1 = lower h2 -> okey_of true h1 = okey_of true h2.
 Proof. exact stop_any_spelling. Qed.
 
-(* ... on the deadline path (no retransmission of the timed-out search survives a hazard-free
-   iteration) and at shutdown (everything is cleared, every search gets SearchStopped) *)
+(* ... on the deadline path: the retransmission of a search that has no resolver any more is
+   dropped by the re-run - it is not among the executed ones, so no query, no SearchStarted
+   and no new retransmission come from it (the early return of exec_command_resolve_hostname) ...
+   and at shutdown (everything is cleared, every search gets SearchStopped) *)
 Theorem timeout_means_silent_state :
-  forall now s e r, hazard now (st_owners s) (st_retrans s) = false ->
-  In e (st_owners s) -> expired now e = true -> In r (st_retrans s) -> rkey r <> fst e.
-Proof. exact timeout_clears. Qed.
+  forall now s r, rerun_live (st_owners s) r = false ->
+  ~ In r (filter (rerun_live (st_owners s)) (filter (due now) (st_retrans s))).
+Proof. exact dead_rerun_dropped. Qed.
 
 Theorem shutdown_means_silent_state :
   forall s, st_retrans (fst (fst (exec_shutdown s))) = [] /\ st_owners (fst (fst (exec_shutdown s))) = []
@@ -72,7 +76,7 @@ Theorem cache_only_browse_sends_nothing :
   /\ forall r, In r (st_retrans (fst (fst (exec_start now false ty true None ch s)))) -> In r (st_retrans s).
 Proof. exact cache_browse_silent. Qed.
 
-(* ---- the full statement is false of the code as it is ---- *)
+(* ---- the witness that refuted the full statement before commit a4675d4 ---- *)
 Definition host_w : name := [77; 121; 46; 108; 111; 99; 97; 108; 46].      (* "My.local." *)
 Definition late_timeout_history : list iter :=
   [ mkIter 1000000 [ResolveHostname host_w (Some 3001) 1];
@@ -80,23 +84,15 @@ Definition late_timeout_history : list iter :=
     mkIter 1003005 [];
     mkIter 1007005 [] ].
 
-(* in the iteration at 1003005 channel 1 receives SearchTimeout, SearchStopped, SearchStarted, and
-   the A/AAAA questions go out again there and at 1007005 *)
-Lemma late_timeout_refutes :
+(* in the iteration at 1003005 channel 1 now receives SearchTimeout, SearchStopped and nothing
+   more; no query leaves there or later *)
+Example late_timeout_now_stops :
   wf_hist 1000000 late_timeout_history = true
-  /\ chk_C13 1000000 late_timeout_history (model_run 1000000 late_timeout_history) = false
+  /\ chk_C13 1000000 late_timeout_history (model_run 1000000 late_timeout_history) = true
   /\ map (fun o => events_on 1 (o_events o)) (model_run 1000000 late_timeout_history)
-     = [ []; [EStarted host_w]; [EStarted host_w];
-         [ETimeout (lower host_w); EStopped (lower host_w); EStarted host_w]; [EStarted host_w] ]
-  /\ map (fun o => length (o_sent o)) (model_run 1000000 late_timeout_history) = [0; 1; 1; 1; 1]%nat.
+     = [ []; [EStarted host_w]; [EStarted host_w]; [ETimeout (lower host_w); EStopped (lower host_w)]; [] ]
+  /\ map (fun o => length (o_sent o)) (model_run 1000000 late_timeout_history) = [0; 1; 1; 0; 0]%nat.
 Proof. vm_compute. repeat split; reflexivity. Qed.
-
-Theorem C13_full_statement_refuted :
-  exists t0 h, wf_hist t0 h = true /\ chk_C13 t0 h (model_run t0 h) = false.
-Proof.
-  exact (ex_intro _ 1000000 (ex_intro _ late_timeout_history
-           (conj (proj1 late_timeout_refutes) (proj1 (proj2 late_timeout_refutes))))).
-Qed.
 
 (* ---- non-vacuity: browse, re-browse on a new channel, cache-only browse, mixed-case stop,
         timeout on time, shutdown ---- *)
@@ -113,7 +109,6 @@ Definition sample_history : list iter :=
 
 Example C13_nonvacuous :
   wf_hist 1000000 sample_history = true
-  /\ hazard_free 1000000 sample_history = true
   /\ chk_C13 1000000 sample_history (model_run 1000000 sample_history) = true
   /\ map (fun o => events_on 3 (o_events o)) (model_run 1000000 sample_history)
      = [ []; [EStarted host_up]; [ETimeout (lower host_up); EStopped (lower host_up)]; []; []; []; []; [] ]
@@ -122,12 +117,11 @@ Example C13_nonvacuous :
 Proof. vm_compute. repeat split; reflexivity. Qed.
 
 Print Assumptions C13_monitor_holds.
-Print Assumptions C13_timely_histories.
-Print Assumptions timely_is_safe.
+Print Assumptions no_retransmission_without_search.
 Print Assumptions stopped_means_silent_state.
 Print Assumptions stop_host_any_case.
 Print Assumptions timeout_means_silent_state.
 Print Assumptions shutdown_means_silent_state.
 Print Assumptions cache_only_browse_sends_nothing.
-Print Assumptions C13_full_statement_refuted.
+Print Assumptions late_timeout_now_stops.
 Print Assumptions C13_nonvacuous.
